@@ -112,8 +112,30 @@ def check_output(raw, cfg, problems):
     return parsed
 
 
-def run_one(cfg, call, v=None):
-    st = Sut(dict(cfg))
+def reconfigure(g, cfg):
+    """Bring a live builder to formatter configuration `cfg` through the public API."""
+    g.format.set_decimal_places(cfg["decimal_places"])
+    g.format.set_comment_symbols(cfg["comment_symbols"])
+    g.format.set_line_endings(cfg["line_endings"])
+    g.rename_axis("x", cfg.get("x_axis", "X"))
+
+
+def run_one(cfg, call, v=None, pre=None):
+    """`pre` = (earlier configuration, warm-up value): the builder is created with the earlier configuration, the same
+    command is issued once, and only then is the builder re-configured at run time to `cfg` (non-initial formatter state)."""
+    if pre is None:
+        st = Sut(dict(cfg))
+    else:
+        st = Sut(dict(pre[0]))
+        try:
+            call(st.g, pre[1]) if pre[1] is not None or call.__code__.co_argcount == 2 else call(st.g)
+        except Exception:   # noqa: BLE001 - the warm-up may legitimately be rejected
+            pass
+        st.rec.take()
+        if st.g.distance_mode.is_relative:
+            st.g.set_distance_mode("absolute")
+        reconfigure(st.g, cfg)
+        st.rec.take()
     try:
         call(st.g, v) if v is not None or call.__code__.co_argcount == 2 else call(st.g)
         exc = None
@@ -122,9 +144,9 @@ def run_one(cfg, call, v=None):
     return exc, b"".join(st.rec.take()).decode("utf-8")
 
 
-def check_value(cfg, name, letter, domain, call, v, finite=True):
+def check_value(cfg, name, letter, domain, call, v, finite=True, pre=None):
     problems = []
-    exc, raw = run_one(cfg, call, v)
+    exc, raw = run_one(cfg, call, v, pre=pre)
     dp = cfg["decimal_places"]
     label = cfg.get("x_axis", "X").upper() if letter == "X" else letter
     typed_np = isinstance(v, np.generic) and not isinstance(v, (float, int))
@@ -192,6 +214,49 @@ def _work(item):
     return n, out, outcomes
 
 
+REPEATABLE = ("move-x", "move-F", "move-E", "move-custom", "set_feed_rate", "set_tool_power", "set_axis-E", "set_bed_temperature",
+              "sleep", "rapid-z", "probe-z", "polyline")
+RECONF_VALUES = [0.123456789, 2.675, 1 / 3, 1e-7, 120, 0.7, 0.0007, 12345.678901234, 5, 0.5, 255]
+
+
+def reconf_pairs(tier):
+    """Ordered pairs (earlier configuration, later configuration) differing in one or more formatter settings."""
+    dps = [0, 3, 5, 8, 12] if tier == "thorough" else [0, 3, 8]
+    base = {"comment_symbols": ";", "line_endings": "os"}
+    pairs = []
+    for a in dps:
+        for b in dps:
+            if a != b:
+                pairs.append(({**base, "decimal_places": a}, {**base, "decimal_places": b}))
+    styles = [";", "(", "#"]
+    for a in styles:
+        for b in styles:
+            if a != b:
+                pairs.append(({"decimal_places": 5, "comment_symbols": a, "line_endings": "os"}, {"decimal_places": 5, "comment_symbols": b, "line_endings": "os"}))
+    pairs.append(({**base, "decimal_places": 4}, {"decimal_places": 4, "comment_symbols": ";", "line_endings": "\\r\\n"}))
+    pairs.append(({"decimal_places": 4, "comment_symbols": ";", "line_endings": "\\r\\n"}, {**base, "decimal_places": 4}))
+    pairs.append(({**base, "decimal_places": 4}, {**base, "decimal_places": 4, "x_axis": "A"}))
+    pairs.append(({**base, "decimal_places": 4, "x_axis": "A"}, {**base, "decimal_places": 6, "x_axis": "U"}))
+    return pairs
+
+
+def _work_reconf(item):
+    c1, c2 = item
+    out, n, outcomes = [], 0, set()
+    for name, letter, domain, call in CARRIERS:
+        if name not in REPEATABLE:
+            continue
+        for v in RECONF_VALUES:
+            for warm in (v, 9.87654321):
+                problems, raw, exc = check_value(c2, name, letter, domain, call, v, pre=(c1, warm))
+                n += 1
+                outcomes.add(digest((name, raw)))
+                for sig, msg in problems:
+                    out.append((sig + ":after-reconfiguration", msg + f" (builder created with {c1}, same command issued with {warm!r}, then re-configured to {c2})",
+                                {"cfg": c2, "pre_cfg": c1, "warm": repr(warm), "carrier": name, "value": repr(v), "vtype": type(v).__name__}))
+    return n, out, outcomes
+
+
 def configs(tier):
     dps = list(range(0, 13))
     styles = [";", "(", "#"]
@@ -220,6 +285,8 @@ def run(tier, seed):
     vals = numbers(tier)
     items = [(cfg, vals, NONFINITE, True) for cfg in configs(tier)]
     results = pmap(_work, items, chunksize=1)
+    pairs = reconf_pairs(tier)
+    results = list(results) + list(pmap(_work_reconf, pairs, chunksize=1))
     total, outcomes = 0, set()
     for n, out, oc in results:
         total += n
@@ -233,7 +300,8 @@ def run(tier, seed):
                  f"{len(vals)} numbers (+-0, ints, bool, numpy scalars, rounding ties at every precision, subnormals, 1e-7, +-1e15, ...) + {len(NONFINITE)} non-finite values "
                  f"+ {len(PLAIN)} non-numeric emitting commands, per formatter configuration ({len(items)} configurations of decimal_places 0..12 x comment style x "
                  "line ending x axis relabelling" + (" - full product)" if tier == "thorough" else " - each dimension varied, not the full product)") +
-                 "; each call on a fresh real GCodeBuilder; output tokenised by an independent strict block grammar; distinct = distinct (carrier, raw output)"),
+                 f"; each call on a fresh real GCodeBuilder; plus {len(pairs)} run-time reconfiguration pairs (decimal places, comment style, line ending, axis label changed through the "
+                 "public API on a live builder after the same command was already issued) x repeatable carriers x values; output tokenised by an independent strict block grammar; distinct = distinct (carrier, raw output)"),
         "exhaustive": True,
         "exhaustive_note": "complete enumeration of the stated finite product; numbers outside the list are not covered",
         "configurations": len(items), "numbers": len(vals),
@@ -260,5 +328,8 @@ def replay(body):
     if rp["vtype"] != type(v).__name__:
         v = getattr(np, rp["vtype"])(v)
     finite = bool(np.isfinite(float(v)))
-    problems, raw, exc = check_value(cfg, car[0], car[1], car[2], car[3], v, finite=finite)
+    pre = None
+    if "pre_cfg" in rp:
+        pre = (rp["pre_cfg"], eval(rp["warm"], {"np": np}))
+    problems, raw, exc = check_value(cfg, car[0], car[1], car[2], car[3], v, finite=finite, pre=pre)
     return {"output": raw, "exception": repr(exc), "violations": problems}
